@@ -63,6 +63,15 @@ def body_fixed(rnd, kind):
                 {"k": "soft", "e": B("eq", SUB("l", 0), lit(1))}]
     if kind == "sum":
         return [E(B(rnd.choice(["eq", "le", "ge"]), {"k": "sum", "l": "l"}, rnd.choice([lit(rnd.randrange(7)), F("a")])))]
+    if kind == "sum_arith":
+        # arithmetic NEXT to the sum: the width of l.sum follows the length of the list, which the edits between the calls change
+        # (each relation has a 32-bit literal on the other side: the additions are evaluated at 32 bits, whatever width the
+        #  library gives the sum itself - which is not part of the property)
+        # (the first statement has no such literal: an open zone for the values - but never for exceptions: the cached width of
+        #  the addition must follow the list)
+        return [E(B(rnd.choice(["ge", "gt", "ne"]), B("add", {"k": "sum", "l": "l"}, F("k")), F("a"))) if rnd.random() < 0.6 else
+                E(B(rnd.choice(["ge", "gt", "ne"]), B("add", {"k": "sum", "l": "l"}, F("k")), lit(rnd.choice([1, 2, 4])))),
+                E(B("le", B("add", F("a"), {"k": "sum", "l": "l"}), lit(rnd.choice([5, 7, 9]))))]
     if kind == "prod":
         return [E(B(rnd.choice(["eq", "le", "ge", "ne"]), {"k": "prod", "l": "l"}, rnd.choice([lit(rnd.choice([0, 1, 2, 4, 6])), F("a")])))]
     if kind == "prod_fe":
@@ -91,7 +100,7 @@ def body_fixed(rnd, kind):
     raise ValueError(kind)
 
 
-FIXED_KINDS = ["fe_it", "fe_idx", "fe_both", "fe_sorted", "fe_guard", "sum", "uniq", "uniq_mixed", "member", "index", "nl_member", "prod", "prod_fe", "fe_tbl", "fe_notidx", "fe_part", "idx_merge", "fe_toggle", "fe_agg", "fe_dyn"]
+FIXED_KINDS = ["fe_it", "fe_idx", "fe_both", "fe_sorted", "fe_guard", "sum", "uniq", "uniq_mixed", "member", "index", "nl_member", "prod", "prod_fe", "fe_tbl", "fe_notidx", "fe_part", "idx_merge", "fe_toggle", "fe_agg", "fe_dyn", "sum_arith"]
 
 
 def family_fixed(tier, seed, n=None):
